@@ -132,40 +132,43 @@ func scanGoFile(mod, rel string) (*goFile, error) {
 	return g, nil
 }
 
-// text returns the source text of an expression with all white space outside string literals removed.
+// text returns the source text of an expression with all white space outside string literals, and a comma
+// directly before a closing brace, removed.
 func (g *goFile) text(e ast.Expr) string {
 	a, b := g.fset.Position(e.Pos()).Offset, g.fset.Position(e.End()).Offset
 	return stripSpace(string(g.src[a:b]))
 }
 
 func stripSpace(s string) string {
-	var sb strings.Builder
+	var sb []byte
 	in := byte(0)
 	for i := 0; i < len(s); i++ {
 		c := s[i]
 		switch {
 		case in == '"':
-			sb.WriteByte(c)
+			sb = append(sb, c)
 			if c == '\\' && i+1 < len(s) {
 				i++
-				sb.WriteByte(s[i])
+				sb = append(sb, s[i])
 			} else if c == '"' {
 				in = 0
 			}
 		case in == '`':
-			sb.WriteByte(c)
+			sb = append(sb, c)
 			if c == '`' {
 				in = 0
 			}
 		case c == '"' || c == '`':
 			in = c
-			sb.WriteByte(c)
+			sb = append(sb, c)
 		case c == ' ' || c == '\t' || c == '\n' || c == '\r':
+		case c == '}' && len(sb) > 0 && sb[len(sb)-1] == ',':
+			sb[len(sb)-1] = '}' // a trailing comma before the closing brace is optional (gofmt drops it on one line)
 		default:
-			sb.WriteByte(c)
+			sb = append(sb, c)
 		}
 	}
-	return sb.String()
+	return string(sb)
 }
 
 // unitGo ties the IDL files of a unit to the generated Go files.
